@@ -25,7 +25,8 @@ pub fn weight(prop: &str, e: &Episode) -> usize {
                     ("npn", 5) => 400,
                     ("p", n) if n >= 7 => 1500,
                     ("p", 6) => 150,
-                    (_, n) if n >= 7 => 200,
+                    (_, 8) => 1500,
+                    (_, 7) => 600,
                     _ => 10,
                 };
             }
